@@ -1,12 +1,12 @@
 """C18 - decorators are transparent: same results, same signature, no double wrapping; getcallargs; cache; try_*; kwargs_support."""
-import inspect, itertools, copy
+import inspect, itertools, copy, collections
 from .. import proto
 from ..proto import enc
 from ..engine import Finding
 
 ID = 'C18'
 TITLE = 'decorators are transparent: same results, same signature, no double wrapping'
-LEAN_FILES = ['Basic', 'Bind', 'Cache', 'Wrap', 'WrapHist', 'Try', 'BindDriver', 'Cmp', 'BindLemmas', 'CacheLemmas', 'CacheKeyLemmas', 'WrapLemmas', 'WrapHistLemmas', 'WrapHistSharp', 'ResDec', 'C18']
+LEAN_FILES = ['Basic', 'Bind', 'Cache', 'Wrap', 'WrapHist', 'Try', 'BindDriver', 'Cmp', 'BindLemmas', 'CacheLemmas', 'CacheKeyLemmas', 'WrapLemmas', 'WrapHistLemmas', 'WrapHistSharp', 'Pd2npLemmas', 'ResDec', 'C18']
 RULE = ('distinct protocol lines (inside the domain of the model) on which the implementation returned a value: a (signature, call) pair bound / called / '
         'round-tripped, a (signature, decorator stack, call) triple, a construction sequence of wrappers, or a cache history '
         '(on a cached function or through a decorator stack) with at least two calls; calls without any argument on a parameterless function are not counted')
@@ -240,6 +240,8 @@ def cache_arg(rng, unhashable=False):
     if unhashable and r < 0.5:
         # a set of ints / an int ndarray, written as a marker string (see `unmark`)
         xs = sorted(rng.sample([1, 2, 3], rng.choice([1, 2])))
+        if r < 0.1:
+            return rng.choice(['~arr:f:ba:97,98', '~arr:f:dq:1,2', '~arr:f:0d:i5', '~arr:f:0d:5', '~arr:f:dq:'])      # bytearray, deque, 0-d arrays: unhashable like an ndarray (K5)
         return ('~set:' if r < 0.25 else '~arr:') + ','.join(map(str, xs))
     if r < 0.12:
         return '~none'           # makes the generated function return None (see `body`)
@@ -272,11 +274,40 @@ def seq_twin(rng, v):
     return v
 
 
+class D2(dict):
+    """a dict subclass whose constructor is not `one mapping`"""
+    def __init__(self, x, extra):
+        super(D2, self).__init__(x)
+        self.extra = extra
+
+
+class L1(list):
+    """a list subclass whose constructor is not `one iterable`"""
+    def __init__(self, n):
+        super(L1, self).__init__(range(n))
+
+
 def mark(v):
-    """sets / arrays -> the marker strings of the wire"""
+    """sets / arrays / container subclasses -> the marker strings of the wire"""
     import numpy as np
+    # subclasses of dict / list with a constructor of their own (round j6): `~dd:n` = defaultdict(int, x=n), `~d2:n` = D2({'x': n}, 'e'),
+    # `~l1:n` = L1(n) = [0..n-1].  An argument that comes back as ANOTHER class (or without its attributes) is marked differently
+    if type(v) is collections.defaultdict:
+        return '~dd:%d' % v['x'] if list(v) == ['x'] and v.default_factory is int else '~dd?:%r' % (v,)
+    if type(v) is D2:
+        return '~d2:%d' % v['x'] if list(v) == ['x'] and getattr(v, 'extra', None) == 'e' else '~d2?:%r' % (v,)
+    if type(v) is L1:
+        return '~l1:%d' % len(v) if list(v) == list(range(len(v))) else '~l1?:%r' % (v,)
     if isinstance(v, (set, frozenset)):
         return '~set:' + ','.join(str(int(x)) for x in sorted(v))
+    # round j6: other arguments the key normalisation leaves unhashable, under the prefix the model reads as "unhashable, not an int array":
+    # `~arr:f:ba:97,98` = bytearray(b'ab'), `~arr:f:dq:1,2` = deque([1, 2]); 0-d arrays `~arr:f:0d:i5` = np.array(5), `~arr:f:0d:5` = np.array(5.0) (is_arr wants a dimension: pd2np does not convert them)
+    if isinstance(v, bytearray):
+        return '~arr:f:ba:' + ','.join(str(x) for x in v)
+    if isinstance(v, collections.deque):
+        return '~arr:f:dq:' + ','.join(str(int(x)) for x in v)
+    if isinstance(v, np.ndarray) and v.ndim == 0:
+        return ('~arr:f:0d:' if v.dtype.kind == 'f' else '~arr:f:0d:i') + str(int(v))
     if isinstance(v, np.ndarray):
         # `~arr:1,2` an int array, `~arr:f:1,2` the float array with the same cells (what pd2np's _int2float makes of it)
         return ('~arr:f:' if v.dtype.kind == 'f' else '~arr:') + ','.join(str(int(x)) for x in v)
@@ -291,9 +322,23 @@ def mark(v):
 
 def unmark(v, rng=None):
     import numpy as np
+    if isinstance(v, str) and v.startswith('~dd:'):
+        return collections.defaultdict(int, x=int(v[4:]))
+    if isinstance(v, str) and v.startswith('~d2:'):
+        return D2({'x': int(v[4:])}, 'e')
+    if isinstance(v, str) and v.startswith('~l1:'):
+        return L1(int(v[4:]))
     if isinstance(v, str) and v.startswith('~set:'):
         xs = [int(x) for x in v[5:].split(',') if x]
         return set(reversed(xs))
+    if isinstance(v, str) and v.startswith('~arr:f:ba:'):
+        return bytearray(int(x) for x in v[10:].split(',') if x)
+    if isinstance(v, str) and v.startswith('~arr:f:dq:'):
+        return collections.deque(int(x) for x in v[10:].split(',') if x)
+    if isinstance(v, str) and v.startswith('~arr:f:0d:i'):
+        return np.array(int(v[11:]), dtype=np.int64)
+    if isinstance(v, str) and v.startswith('~arr:f:0d:'):
+        return np.array(float(v[10:]))
     if isinstance(v, str) and v.startswith('~arr:f:'):
         return np.array([float(x) for x in v[7:].split(',') if x], dtype=float)
     if isinstance(v, str) and v.startswith('~arr:'):
@@ -354,7 +399,7 @@ def gen_cache(rng, raising=False, unhashable=False):
     return dict(tag='cache history len=%d%s%s' % (len(hist), ' raising' if raising else '', ' set/ndarray arguments' if unhashable else ''), lines=[line])
 
 
-def gen_stackhist(rng):
+def gen_stackhist(rng, subclasses=False):
     """a history of calls through a decorator stack that (mostly) contains a cache layer: replies and the number of executions
     of f after every call.  == twins, positional-vs-keyword variants (loops above the cache merges them), raising and invalid
     calls (try_value with repeat re-runs the layers below; the cache re-evaluates a raising function), undeclared keywords,
@@ -363,9 +408,11 @@ def gen_stackhist(rng):
                       (['a'], [DEFAULTS[0]], None, 'kw'), (['a', 'b', 'c'], [DEFAULTS[0], DEFAULTS[1]], None, None),
                       (['a', 'axis'], [0], None, None)])
     params, defaults, va, vk = sig
-    others = [c for c in CLASSES if c != 'cache_func']
+    others = [c for c in CLASSES if c != 'cache_func' and not (subclasses and c == 'loops')]        # loops on a list / dict SUBCLASS loops over it: C19
     classes = rng.sample(others, rng.choice([0, 1, 1, 2, 2, 3]))
-    with_cache = rng.random() < 0.9
+    if subclasses and 'pd2np' not in classes and rng.random() < 0.6:
+        classes.append('pd2np')
+    with_cache = rng.random() < (0.4 if subclasses else 0.9)
     if with_cache:
         classes.append('cache_func')
     if rng.random() < 0.15 and classes:
@@ -379,7 +426,14 @@ def gen_stackhist(rng):
     pool = []
     for _ in range(rng.choice([1, 2, 3])):
         a, k = rng.choice(calls)
-        val = lambda: (rng.choice(['~arr:1,2', '~arr:f:1,2', '~arr:3']) if arrays and rng.random() < 0.4 else rng.choice([0, 1, 2, 2.5, True, 'x', None, -3]))
+        val = lambda: (rng.choice(['~arr:1,2', '~arr:f:1,2', '~arr:3', '~arr:f:ba:97,98', '~arr:f:dq:1,2', '~arr:f:0d:i5', '~arr:f:0d:5']) if arrays and rng.random() < 0.4 else rng.choice([0, 1, 2, 2.5, True, 'x', None, -3]))
+        if subclasses:
+            # round j6: arguments that are dict / list SUBCLASSES whose constructor is not "one mapping / one iterable" (defaultdict, D2, L1),
+            # bare, inside a list / tuple / dict, positional or by keyword: an argument is only passed through, the call is valid for f
+            # (contents differ from one class to the other: defaultdict(int, x=1) == D2({'x': 1}, 'e') for python, ONE combination for the cache)
+            sub = lambda: rng.choice(['~dd:1', '~dd:2', '~d2:3', '~l1:3'])
+            plain = val
+            val = lambda: (rng.choice([sub(), sub(), [sub(), 7], (sub(),), {'p': sub()}]) if rng.random() < 0.6 else plain())
         pool.append(([val() for _ in a], {n: val() for n in k}))
     hist = []
     kinds = set()
@@ -408,8 +462,9 @@ def gen_stackhist(rng):
             kinds.add('maybe-invalid')
         hist.append((a, k))
     line = '(deco stackhist %s %s %s)' % (sig_enc(sig), decos_enc(ds), '(L' + ''.join(' (T %s %s)' % (enc(a), enc(k)) for a, k in hist) + ')')
-    return dict(tag='stack history %s len=%d%s%s' % ('with cache' if with_cache else 'without cache', len(hist),
-                                                    ' ndarray arguments' if arrays else '', ' raising' if 'raising' in kinds else ''), lines=[line])
+    return dict(tag='stack history %s len=%d%s%s%s' % ('with cache' if with_cache else 'without cache', len(hist),
+                                                      ' ndarray arguments' if arrays else '', ' raising' if 'raising' in kinds else '',
+                                                      ' dict/list-subclass arguments%s' % (' pd2np' if 'pd2np' in classes else '') if subclasses else ''), lines=[line])
 
 
 def gen_steps(rng):
@@ -581,6 +636,8 @@ def generate(rng, tier):
         yield gen_cache(rng, raising=rng.random() < 0.2, unhashable=True)
     for _ in range(600 if q else 12000):
         yield gen_stackhist(rng)
+    for _ in range(150 if q else 3000):
+        yield gen_stackhist(rng, subclasses=True)
     for _ in range(300 if q else 6000):
         yield gen_steps(rng)
     for _ in range(400 if q else 8000):
@@ -625,6 +682,17 @@ def run_line(state, sx):
                 raise AssertionError('argument specification of an earlier object changed')
         chain, b = dump(g)
         assert b is base
+        # the observation the property names: `W(W(f)) == W(f)` with python's own ==, on objects whose specification has been requested
+        # (round j6: the dump below ignores the memo field `function_fullargspec`, wrapper.__eq__ compared it)
+        if made:
+            again = construct(cls, params, g)
+            if not (again == g and g == again) or again != g or g != again:
+                raise AssertionError('W(W(f)) == W(f) is False for python ==')
+            fresh = base
+            for c2, p2 in decos_dec(a[0]):
+                fresh = construct(c2, p2, fresh)
+            if not (fresh == g and g == fresh) or fresh != g:
+                raise AssertionError('the same applications on the same function give a wrapper that is not == (python ==)')
         # observation outside the property statement: did a constructor edit an earlier object in place?
         EXTRA['constructions'] = EXTRA.get('constructions', 0) + 1
         if any(enc([(c, p) for c, p in dump(o)[0]]) != d for o, d in made):
@@ -944,29 +1012,54 @@ def laws(rng, tier, ctx):
     # (2b) arguments that are not scalars: int / float ndarrays (also inside a list), namedtuples, lists, dicts - through every single
     # decorator and random stacks.  pd2np turns int arrays into float arrays before calling f (documented: "will also convert int
     # numpy arrays into floaters") - known finding K6, recognised precisely: the result is f's result on the converted arguments
-    import numpy as np, collections
+    import numpy as np, pandas as pd
     P2 = collections.namedtuple('P2', ['x', 'y'])
 
     def show(v):
         if isinstance(v, np.ndarray):
             return 'array(%s, %s)' % (v.tolist(), v.dtype)
+        if isinstance(v, (pd.Series, pd.DataFrame)):
+            return '%s(%s, %s, index=%s)' % (type(v).__name__, v.values.tolist(), list(map(str, np.atleast_1d(v.dtypes))), list(v.index))
         if isinstance(v, dict):
-            return '{%s}' % ', '.join('%r: %s' % (k, show(x)) for k, x in v.items())
+            extra = ('default_factory=%r ' % v.default_factory if isinstance(v, collections.defaultdict) else '') + ('extra=%r ' % getattr(v, 'extra', None) if isinstance(v, D2) else '')
+            return '%s{%s%s}' % ('' if type(v) is dict else type(v).__name__, extra, ', '.join('%r: %s' % (k, show(x)) for k, x in v.items()))
         if isinstance(v, (list, tuple)):
             return '%s(%s)' % (type(v).__name__, ', '.join(show(x) for x in v))
         return repr(v)
 
     def i2f(v):
-        if isinstance(v, np.ndarray) and v.dtype in (np.dtype(np.int16), np.dtype(np.int32), np.dtype(np.int64)):       # what the docstring of K6 covers: int8 / uint arrays stay as they are
+        """what the docstring of pd2np / K6 covers: int16 / int32 / int64 arrays - and Series, and the int columns of a DataFrame (`_int2float`
+        treats them alike, round j6) - become float, at any depth of list / tuple / dict; int8 / uint arrays stay as they are.  A container
+        none of whose members changes is the argument ITSELF; otherwise a copy of it with the changed members (class and attributes kept)"""
+        ints = (np.dtype(np.int16), np.dtype(np.int32), np.dtype(np.int64))
+        if isinstance(v, (np.ndarray, pd.Series)) and v.ndim > 0 and v.dtype in ints:
             return v.astype(float)
+        if isinstance(v, pd.DataFrame):
+            cols = {c: float for c, t in dict(v.dtypes).items() if t in ints}
+            return v.astype(cols) if cols else v
         if isinstance(v, dict):
-            return {k: i2f(x) for k, x in v.items()}
+            r = {k: i2f(x) for k, x in v.items()}
+            if all(r[k] is v[k] for k in v):
+                return v
+            c = copy.copy(v)
+            c.update(r)
+            return c
         if isinstance(v, (list, tuple)):
-            return type(v)(*[i2f(x) for x in v]) if hasattr(v, '_fields') else type(v)([i2f(x) for x in v])
+            r = [i2f(x) for x in v]
+            if all(x is y for x, y in zip(r, v)):
+                return v
+            return type(v)(*r) if hasattr(v, '_fields') else type(v)(r)
         return v
     specials = [lambda: np.array([1, 2]), lambda: np.array([1.5, 2.5]), lambda: [np.array([1, 2]), 3], lambda: P2(1, 2), lambda: P2(np.array([3]), 'x'),
                 lambda: {'k': np.array([1, 2])}, lambda: [1, [2, 3]], lambda: {'p': 1}, lambda: np.array([1, 2], dtype=np.int8), lambda: np.array([1, 2], dtype=np.uint16),
-                lambda: np.array([1, 2], dtype=np.int32)]
+                lambda: np.array([1, 2], dtype=np.int32),
+                # round j6: dict / list subclasses whose constructor is not "one mapping / one iterable"
+                lambda: collections.defaultdict(int, x=1), lambda: collections.Counter('aab'), lambda: D2({'x': 1}, 'e'), lambda: L1(3),
+                lambda: [collections.defaultdict(int, x=1), 2], lambda: {'k': L1(2)}, lambda: (D2({'x': 1}, 'e'),), lambda: collections.OrderedDict(b=1, a=2),
+                # round j6: pandas objects as NON-first arguments of pd2np (int Series / int columns are converted like int arrays: K6)
+                lambda: pd.Series([1, 2]), lambda: pd.Series([1.5, 2.5]), lambda: pd.DataFrame({'a': [1, 2], 'b': [1.5, 2.5]}), lambda: [pd.Series([1, 2], dtype=np.int32), 3],
+                lambda: collections.defaultdict(int, x=np.array([1, 2])),
+                lambda: bytearray(b'ab'), lambda: collections.deque([1, 2]), lambda: np.array(5), lambda: [np.array(5), collections.deque([np.array([1, 2])])]]
     for sig, args, kw in rng.sample(allcalls, 150 if tier == 'quick' else len(allcalls)):
         if not args and not kw:
             continue
@@ -991,6 +1084,9 @@ def laws(rng, tier, ctx):
             for cls, params in ds:
                 g = construct(cls, params, g)
             a, k = build()
+            if any(c == 'pd2np' for c, _ in ds) and isinstance(first_arg(sig, a, k), (pd.Series, pd.DataFrame)):
+                count -= 1
+                continue          # pd2np on PANDAS input (the first argument decides): outside "pd2np on non-pandas input"
             direct = show(res_val(lambda: f(*a, **k)))
             a, k = build()
             got = show(res_val(lambda: g(*a, **k)))
